@@ -125,6 +125,8 @@ type trialRec struct {
 	cancelCall int64
 
 	completed atomic.Int64 // Inserts returned
+	accUnits  atomic.Int64 // Inserts that returned a nil error
+	delUnits  atomic.Int64 // sum(1+dups) over the deliveries observed by the harness
 	nextOps   atomic.Int64 // Next calls returned
 	inNext    atomic.Bool
 }
@@ -149,6 +151,9 @@ func (t *trialRec) insert(item interface{}, id, prod int) (rec insRec, ok bool) 
 	c := t.tick.Add(1)
 	isNew, err := t.q.Insert(item)
 	rt := t.tick.Add(1)
+	if err == nil {
+		t.accUnits.Add(1)
+	}
 	t.completed.Add(1)
 	return insRec{Item: id, Call: c, Ret: rt, New: isNew, Err: err != nil, ErrClosed: coalesce.IsClosedQueue(err), Prod: prod}, true
 }
@@ -200,6 +205,7 @@ func (t *trialRec) next(ctx context.Context, decode func(interface{}) int, drain
 	rec = nextRec{Item: -1, Dups: dups, Call: c, Ret: rt, Drain: drain}
 	switch {
 	case err == nil:
+		t.delUnits.Add(1 + int64(dups))
 		rec.Item = decode(item)
 		if rec.Item < 0 {
 			rec.Raw = fmt.Sprintf("%#v", item)
@@ -401,9 +407,11 @@ func concTrial(r *vlib.Run, trial int, rng *rand.Rand) {
 		xg.Wait()
 	}
 	drained := func(cause string) bool {
-		ok := awaitCond(func() bool { return t.q.Len() == 0 || !isOpen(cons.done) }, t.nextOps.Load)
+		// Harness bookkeeping only (not the queue's own Len): everything
+		// accepted so far must be accounted for by deliveries.
+		ok := awaitCond(func() bool { return t.delUnits.Load() >= t.accUnits.Load() || !isOpen(cons.done) }, t.nextOps.Load)
 		if !ok {
-			setStuck("stuck-after-insert", fmt.Sprintf("%s: all producers have returned, items are pending, the consumer is in Next", cause))
+			setStuck("stuck-after-insert", fmt.Sprintf("%s: all producers have returned, %d Inserts were accepted but the deliveries account for only %d, the consumer is in Next", cause, t.accUnits.Load(), t.delUnits.Load()))
 		}
 		return ok
 	}
@@ -493,8 +501,10 @@ func concTrial(r *vlib.Run, trial int, rng *rand.Rand) {
 			}
 		}
 	}
-	// Drain what is left (after a cancel: everything still pending; after a
-	// close: insertions that overlapped Close) with a second consumer.
+	// A second consumer drains what is left: after a cancel everything still
+	// pending; after a closed report it must be told closed at once (any item
+	// it still receives is a violation: accepted but not delivered before the
+	// closed report).
 	if finished {
 		if t.closeRet == never {
 			closeIt()
@@ -563,14 +573,12 @@ func concTrial(r *vlib.Run, trial int, rng *rand.Rand) {
 	r.Count("conc_deliveries", st.deliveries)
 	r.Count("conc_coalesced_deliveries", st.coalesced)
 	r.Count("conc_units_delivered", st.units)
-	r.Count("conc_units_recovered_after_closed_report", st.recoveredByDrain)
+	r.Count("conc_units_returned_after_closed_report", st.recoveredByDrain)
 	r.Count("conc_order_pairs_judged", st.orderJudged)
 	r.Count("conc_order_ambiguous_episodes", st.orderAmbiguous)
 	r.Count("conc_prefix_bounds_judged", st.prefixJudged)
-	if st.accepted == st.units {
-		r.Count("conc_conservation_exact", 1)
-	} else {
-		r.Count("conc_conservation_bounded", 1)
+	if st.allBeforeClosed {
+		r.Count("conc_trials_all_accepted_delivered_before_closed", 1)
 	}
 	if pert != nil {
 		r.SetAdd("interleavings", pert.Signature())
